@@ -414,6 +414,17 @@ func TestVerifC07(t *testing.T) {
 	rng := &vrng{s: vseed() ^ 0xC07}
 	only := os.Getenv("VERIF_C07_ONLY")
 	script := func(ver int, evs ...string) {
+		st := false
+		for _, e := range evs {
+			if e == "S" {
+				st = true
+			} else if e == "R" {
+				st = false
+			}
+		}
+		if st {
+			evs = append(evs, "R") // every script ends with the peer reading
+		}
 		req := fmt.Sprintf("ack-script %d %s", ver, strings.Join(evs, " "))
 		if only != "" && only != req {
 			return
